@@ -29,7 +29,7 @@ KINDS = ('Module', 'ClassDef', 'FunctionDef', 'AsyncFunctionDef')
 
 
 def run(ctx):
-    for fn in (r1_exhaustive_kinds, r2_no_descent, r3_class_level, r3b_reset_ownership, r4_property_accessors, r4b_delegation, r5_main_guard, r6_package_walk, r7_keys):
+    for fn in (r1_exhaustive_kinds, r2_no_descent, r3_class_level, r3b_reset_ownership, r4_property_accessors, r4b_delegation, r5_main_guard, r6_package_walk, r7_keys, r8_compound_statements_descend):
         ctx.rep.rule(fn, ctx)
 
 
@@ -334,10 +334,12 @@ def r6_package_walk(ctx):
     tb = [b for b in t.nsucc() if b.kind == 'branch' and b.attrs['polarity'] is True]
     region = [n for n in graph.reachable(fb, efilter=graph.normal_only, stop=[lp]) if dom.has(n) and any(dom.dominates(b, n) for b in fb)]
     cleared = False
+    clear_nodes = []
     for n in region:
         if n.kind != 'stmt':
             continue
         s = n.ast
+        was = cleared
         if isinstance(s, ast.Delete) and any(isinstance(x, ast.Subscript) and is_name(x.value, dnames) and isinstance(x.slice, ast.Slice) and x.slice.lower is None and x.slice.upper is None for x in s.targets):
             cleared = True
         if isinstance(s, ast.Assign) and any(isinstance(x, ast.Subscript) and is_name(x.value, dnames) and isinstance(x.slice, ast.Slice) for x in s.targets) and \
@@ -346,6 +348,21 @@ def r6_package_walk(ctx):
         for c in node_calls(n):
             if isinstance(c.func, ast.Attribute) and c.func.attr == 'clear' and is_name(c.func.value, dnames):
                 cleared = True
+        if cleared and not was:
+            clear_nodes.append(n)
+            cleared = False
+    cleared = bool(clear_nodes)
+    # the list that is emptied must be the very object os.walk handed out (os.walk reads it back to decide where to descend)
+    rebound = []
+    for n in clear_nodes:
+        for d in rd.at(n, dnames):
+            if d.kind != 'iter':
+                rebound.append(d)
+    if clear_nodes:
+        rep.ob('C07.R6', ctx.loc(f, clear_nodes[0].ast), '`%s` is still the list handed out by os.walk' % dnames, not rebound,
+               'the name has not been rebound inside the loop body' if not rebound else
+               '`%s` was rebound by `%s`: emptying it no longer prunes the walk, which now descends into directories without __init__.py and yields the modules of packages below them'
+               % (dnames, ctx.src(rebound[0].node.ast)), anchor=q)
     yields_in = [n for n in region if n.kind == 'stmt' and any(isinstance(x, (ast.Yield, ast.YieldFrom)) for x in ast.walk(n.ast))]
     rep.ob('C07.R6', ctx.loc(f, t.ast), 'not a package -> prune `%s` in place' % dnames, cleared,
            'the directory list handed out by os.walk is emptied in place on the non-package branch' if cleared else
@@ -457,11 +474,59 @@ def r7_keys(ctx):
 
 
 # ---------------------------------------------------------------------------
+# statement kinds that can hold definitions in nested statement lists, and the fields holding them
+COMPOUND_FIELDS = {
+    'Try': ('body', 'handlers', 'orelse', 'finalbody'), 'TryStar': ('body', 'handlers', 'orelse', 'finalbody'),
+    'With': ('body',), 'AsyncWith': ('body',), 'For': ('body', 'orelse'), 'AsyncFor': ('body', 'orelse'), 'While': ('body', 'orelse'),
+    'Match': ('cases',), 'ExceptHandler': ('body',), 'match_case': ('body',),
+}
+
+
+def r8_compound_statements_descend(ctx, rule='C07.R8'):
+    """definitions under try / with / for / while / match are module-level definitions at import time (the dynamic collector sees
+    them): a visitor override for such a statement kind must still visit every nested statement list.  (`If` has its own rule R5.)"""
+    rep = ctx.rep
+    ci = ctx.cls(V)
+    n = 0
+    for kind, fields in sorted(COMPOUND_FIELDS.items()):
+        b = visitor_binding(ctx, kind)
+        if b is None:
+            continue            # ast.NodeVisitor.generic_visit descends everywhere
+        n += 1
+        f = b[-1]
+        if f is None:
+            rep.ob(rule, ctx.mloc(ci.module, ci.node), 'TopLevelVisitor.visit_%s' % kind, False, 'bound to something that is not a method of the visitor', anchor=V)
+            continue
+        g, calls = _visit_calls(ctx, f)
+        recv = f.node.args.args[0].arg
+        node_p = f.node.args.args[1].arg if len(f.node.args.args) > 1 else None
+        gv = [nn for (nn, c) in calls if c.func.attr == 'generic_visit' and c.args and is_name(c.args[0], node_p)]
+        wit = graph.must_pass([g.entry], lambda x: x is g.exit, through=gv, efilter=graph.normal_only)
+        if wit is None and gv:
+            rep.ob(rule, ctx.loc(f, f.node), 'visit_%s descends' % kind, True, 'generic_visit(node) on every normal path', anchor=f.qualname)
+            continue
+        # explicit visits of some fields
+        visited = {x.attr for x in ast.walk(f.node) if isinstance(x, ast.Attribute) and is_name(x.value, node_p) and x.attr in fields}
+        missing = [fl for fl in fields if fl not in visited]
+        visits_any = any(c.func.attr == 'visit' for (_, c) in calls)
+        ok = not missing and visits_any
+        rep.ob(rule, ctx.loc(f, f.node), 'visit_%s descends' % kind, ok,
+               'every nested statement list is visited explicitly' if ok else
+               'the override for ast.%s does not visit %s: definitions written there exist after import (the dynamic collector yields them) but are invisible to static collection'
+               % (kind, missing or 'its children'), anchor=f.qualname)
+    rep.note('compound_statement_overrides', n)
+
+
+# ---------------------------------------------------------------------------
 from ..selftest import fire, silent      # noqa: E402
 
 SA = 'xdoctest/static_analysis.py'
 CO = 'xdoctest/core.py'
 VARIANTS = [
+    fire('try-handlers-not-visited', 'C07.R8', (SA, "    # -- helpers ---\n", "    def visit_Try(self, node):\n        for child in node.body + node.orelse + node.finalbody:\n            self.visit(child)\n\n    # -- helpers ---\n")),
+    silent('try-visited-explicitly', (SA, "    # -- helpers ---\n", "    def visit_Try(self, node):\n        self.generic_visit(node)\n\n    # -- helpers ---\n")),
+    fire('walk-list-rebound-before-pruning', 'C07.R6', (SA, "            ispkg = exists(join(dpath, '__init__.py'))\n", "            dnames = sorted(dnames)\n            ispkg = exists(join(dpath, '__init__.py'))\n")),
+    silent('walk-list-sorted-in-place', (SA, "            ispkg = exists(join(dpath, '__init__.py'))\n", "            dnames.sort()\n            ispkg = exists(join(dpath, '__init__.py'))\n")),
     fire('M7-nested-classes-collected', 'C07.R3',
          (SA, "        if self._current_classname is None:\n            callname = node.name\n            self._current_classname = callname\n", "        if True:\n            callname = node.name\n            self._current_classname = callname\n")),
     fire('classname-not-reset', 'C07.R3', (SA, "            self.generic_visit(node)\n            self._current_classname = None\n", "            self.generic_visit(node)\n")),
